@@ -8,7 +8,7 @@ import numpy as np
 
 from solvers import solve_with_batch, COMBOS, Prepared, dense_design, solver_cells
 
-UNITS = ["SolverStruct", "BatchGen", "DesignGen", "ShapesSolvers", "SkelSolvers"]
+UNITS = ["SolverStruct", "BatchGen", "DesignGen", "ShapesSolvers", "SkelSolvers", "ShapesApi", "SkelApi"]
 PROPS = ["props/C06.v"]
 ASSUMPTIONS = ["LAPACK posv: info = 0 -> A x = b (conformance-checked on every call made by this run); backward-error accuracy is a tolerance check (1e-7 relative)"]
 
@@ -33,6 +33,9 @@ def datasets(rng, N, n_coef):
     out.append(("centred", raw - raw.mean(axis=0), rng.normal(size=(need + 5, N, 3))))
     u_ = rng.normal(size=((need + 5) // 3 + 1, N, 3)) * 0.05
     out.append(("zero-sum-triples", np.concatenate([u_, -u_ / 2, -u_ / 2]), rng.normal(size=(3 * len(u_), N, 3))))
+    # the undisplaced supercell first (exact zeros, residual forces not zero), as finite-displacement workflows store it
+    d_u = np.concatenate([np.zeros((1, N, 3)), rng.normal(size=(need + 4, N, 3)) * 0.05])
+    out.append(("undisplaced-first", d_u, rng.normal(size=(need + 5, N, 3))))
     # rank deficient: displacements confined to one direction of one atom
     d = np.zeros((need + 3, N, 3))
     d[:, 0, 0] = rng.normal(size=need + 3) * 0.05
